@@ -36,6 +36,7 @@ type Harness interface {
 
 type graphFile struct {
 	Module string            `json:"module"`
+	Params any               `json:"params"` // constants of the run, handed to Reset as init["params"]
 	States []json.RawMessage `json:"states"` // full specification states (identity)
 	Abs    []json.RawMessage `json:"abs"`    // their projections (what is compared); may be empty => same as States
 	Init   []int             `json:"init"`
@@ -171,6 +172,11 @@ func LoadGraph(path string) (*Graph, error) {
 		}
 		g.abs = append(g.abs, a)
 		g.canon = append(g.canon, Canon(a))
+	}
+	if gf.Params != nil {
+		for _, s := range g.init {
+			g.states[s]["params"] = gf.Params
+		}
 	}
 	g.out = make([][]int, len(g.states))
 	groupIDs := map[string]int{}
